@@ -69,6 +69,11 @@ func randomEmail(buf []byte) error {
 	tld := []byte(tlds[seededRand.Int31n(int32(len(tlds)))])
 	// After we've chosen the TLD, fill the rest of the email with gibberish, and throw @ in there somewhere.
 	nonTLDlen := len(buf) - len(tld)
+	if nonTLDlen < 0 {
+		// The buffer is too short to hold any TLD, so no e-mail shape of this length exists:
+		// produce a random string of the same length instead of slicing with a negative bound.
+		return randomString(buf)
+	}
 	err := randomString(buf[:nonTLDlen])
 	if err != nil {
 		return err
